@@ -1,3 +1,4 @@
+import PeliteModel.Model.Pe
 /-! Offsets, sizes and constants of the PE/COFF structures, entered by hand from the Microsoft
 PE format specification / winnt.h, in the order `harness/probe` prints the layout of `image.rs`:
 
@@ -25,3 +26,19 @@ def peFormatVals : List Nat :=
     0x5A4D, 0x4550, 0x10b, 0x20b, 16,
     8, 4 ]
 end Pelite.Spec
+
+/-! ### the `Name` field of a section header (`BYTE Name[IMAGE_SIZEOF_SHORT_NAME]`, 8 bytes, NUL padded) -/
+namespace Pelite.Pe
+
+/-- byte `j` of the query of `by_name` as an 8-byte `Name` field would store it: the bytes of the
+name followed by NULs -/
+def paddedName (n : Bytes) (j : Nat) : Nat := if j < n.size then byteAt n j else 0
+
+/-- byte `j` (`j < 8`) of the `Name` field of a decoded section header (`Sec` keeps the field as its
+two little-endian halves) -/
+def Sec.nameByte (s : Sec) : Nat → Nat
+  | 0 => s.nameLo % 256 | 1 => s.nameLo / 256 % 256 | 2 => s.nameLo / 65536 % 256 | 3 => s.nameLo / 16777216 % 256
+  | 4 => s.nameHi % 256 | 5 => s.nameHi / 256 % 256 | 6 => s.nameHi / 65536 % 256 | 7 => s.nameHi / 16777216 % 256
+  | _ => 0
+
+end Pelite.Pe
